@@ -6,7 +6,7 @@ before anything is sent, exactly one ADD_ONION, hostname and key custody after t
 import z3
 
 from pyvc.exec import Raise, Unsupported
-from pyvc.sym import (VInt, VBool, VStr, VBytes, VNone, NONE, VTuple, VInst, VOpaque, VUnion, VConc, VFunc, VSeq, VList, VBoundExt,
+from pyvc.sym import (VInt, VBool, VStr, VBytes, VNone, NONE, VTuple, VInst, VOpaque, VUnion, VConc, VFunc, VSeq, VList, VBoundExt, VDictLit,
                       concrete_of, mk_str, zand, zor)
 from pyvc import extract
 from contracts.onion import OnionModels
@@ -304,6 +304,52 @@ def unit_add_auth():
     return run
 
 
+def unit_auth_init(shape):
+    """_AuthCommon.__init__ over three client entries; shape: one letter per entry, 't' = (name, cookie) tuple, 'n' = bare name.
+    This establishes the _clients map the auth_basic unit starts from."""
+    def run(ctx):
+        ctx.fn(MODULE, '_AuthCommon.__init__')
+        import txtorcon.onion as onion
+        ex = ctx.ex
+        path = ctx.new_path()
+        auth = ex.new_inst(path, onion.AuthBasic)
+        names = [z3.String('client%d' % i) for i in range(len(shape))]
+        blobs = [z3.String('cookie%d' % i) for i in range(len(shape))]
+        for i in range(len(shape)):
+            ctx.input('client%d' % i, VStr(names[i]))
+            for j in range(i):
+                path.assume(names[i] != names[j])
+        entries = [VTuple([VStr(names[i]), VStr(blobs[i])]) if c == 't' else VStr(names[i]) for i, c in enumerate(shape)]
+        spaced = zor(*[z3.Contains(n_, mk_str(' ')) for n_ in names])
+        ctx.cover('pre_satisfiable', path)
+        ctx.cover('pre_no_spaces', path, z3.Not(spaced))
+        n_ok = 0
+        outs = ex.getattr_v(path, auth, '__init__')
+        for p, r in ex.call(outs[0][0], outs[0][1], [ex.new_list(path, entries)], {}):
+            if isinstance(r, Raise):
+                ctx.oblige('post.refused_only_for_a_name_with_a_space', p,
+                           zand(B(isinstance(r.exc, VInst) and r.exc.cls is ValueError), spaced))
+                continue
+            n_ok += 1
+            cl = p.heap.get(('f', auth.oid, '_clients'))
+            pairs = p.heap[('dict', cl.did)] if isinstance(cl, VDictLit) else None
+            ok = pairs is not None and len(pairs) == len(shape) and all(isinstance(k, VStr) for k, _ in pairs)
+            goals = []
+            if ok:
+                for i, c in enumerate(shape):
+                    k, v = pairs[i]
+                    goals.append(k.t == names[i])
+                    goals.append(zand(B(isinstance(v, VStr)), v.t == blobs[i]) if c == 't' and isinstance(v, VStr)
+                                 else B(c == 'n' and isinstance(v, VNone)))
+            ctx.oblige('post.each_client_keeps_exactly_its_own_cookie_or_none', p, zand(B(ok), *goals) if ok else B(False),
+                       clause='client-authentication entries correspond exactly to the request: a client given without a cookie has none '
+                              '(Tor generates it), a client given with one keeps that one')
+            ctx.oblige('post.accepted_names_have_no_space', p, z3.Not(spaced))
+        if not n_ok:
+            ctx.oblige('some_normal_exit', path, B(False))
+    return run
+
+
 def make_models_for(unit_name):
     return AuthModels14() if '/auth' in unit_name else Models14()
 
@@ -338,6 +384,8 @@ def units():
             for nports in (1, 2):
                 out.append(('C14/add/v%d/%s/%dports' % (version, keykind, nports), unit_add(version, keykind, nports)))
     out.append(('C14/add/auth_basic', unit_add_auth()))
+    for shape in ('tn', 'nt', 'tnt', 'ntn', 'tt', 'nn'):
+        out.append(('C14/auth_clients@%s' % shape, unit_auth_init(shape)))
     out.append(('C14/remove', unit_remove()))
     return out
 
